@@ -8,7 +8,10 @@ tvars == <<hvars, l, nviol>>
 TraceInit == cid = "trusted" /\ sid = "trusted" /\ ctrust = "T" /\ state = "start" /\ via = "raw" /\ l = 1 /\ nviol = 0
 Flag(k, kind) == PrintT(<<"VIOL", k, l, {"C15"}, kind>>) /\ nviol' = nviol + 1
 Check(e) ==
-    IF e.ev # "tls" THEN nviol' = nviol
+    \* every server of the run is configured with files the bundled generator wrote (sets regenerated
+    \* in place, see the harness): it must come up
+    IF e.ev = "server_start" THEN (IF e.ok THEN nviol' = nviol ELSE Flag(0, "server_cannot_start_with_generated_set_" \o e.server))
+    ELSE IF e.ev # "tls" THEN nviol' = nviol
     ELSE IF e.registered /\ ~MayRegister(e.client, e.server, e.trust)
     THEN Flag(e.case, "untrusted_pairing_registered_client_" \o e.client \o "_server_" \o e.server \o "_trust_" \o e.trust \o "_" \o e.via)
     ELSE IF ~e.registered /\ MayRegister(e.client, e.server, e.trust)
